@@ -48,6 +48,9 @@ import (
 //	                          (the subscriber keeps emptying its buffer while it leaves)
 //	src_answer_slice_is_fresh gateway_exclusive.go exclusiveGateway.run: every slice that is appended to there is a variable
 //	                          declared inside the case clause in which it is appended to (made anew for every message)
+//	src_wake_is_direct        process_set.go: struct ProcessSet has no map-typed field of channels (no table of listening catch
+//	                          events) and some method of ProcessSet other than tracerProcess calls ConsumeEvent (the throw
+//	                          hands the events to the process itself)
 //	src_setvariable_replaces  pkg/data/impl.go FlowDataLocator.SetVariable: a stored value is never written through
 //	                          (no assignment to a field of something that was read out of the variables table); the
 //	                          name is pointed at another value instead
@@ -68,6 +71,7 @@ type protoFacts struct {
 	HandlerOnlyOnError  bool
 	UnsubscribeDrains   bool
 	AnswerSliceIsFresh  bool
+	WakeIsDirect        bool
 }
 
 func findMethod(f *ast.File, recv, name string) *ast.FuncDecl {
@@ -584,6 +588,48 @@ func protocolFacts(c *factsCtx) (pf protoFacts) {
 		}
 		pf.AnswerSliceIsFresh = appends > 0 && fresh == appends
 	}
+	// --- process_set.go: how a message flow wakes a catch event
+	if f := c.parse("process_set.go"); f == nil {
+		c.fail("protocol facts: process_set.go not found")
+	} else {
+		table, found := false, false
+		ast.Inspect(f, func(n ast.Node) bool {
+			ts, ok := n.(*ast.TypeSpec)
+			if !ok || ts.Name.Name != "ProcessSet" {
+				return true
+			}
+			found = true
+			if st, ok := ts.Type.(*ast.StructType); ok {
+				for _, fl := range st.Fields.List {
+					if mt, ok := fl.Type.(*ast.MapType); ok {
+						if _, isChan := mt.Value.(*ast.ChanType); isChan {
+							table = true
+						}
+					}
+				}
+			}
+			return false
+		})
+		if !found {
+			c.fail("protocol facts: struct ProcessSet not found")
+		}
+		direct := false
+		for _, d := range f.Decls {
+			fd, ok := d.(*ast.FuncDecl)
+			if !ok || fd.Recv == nil || fd.Body == nil || fd.Name.Name == "tracerProcess" || !strings.Contains(nodeText(c.fset, fd.Recv.List[0].Type), "ProcessSet") {
+				continue
+			}
+			ast.Inspect(fd.Body, func(n ast.Node) bool {
+				if call, ok := n.(*ast.CallExpr); ok {
+					if se, ok := call.Fun.(*ast.SelectorExpr); ok && se.Sel.Name == "ConsumeEvent" {
+						direct = true
+					}
+				}
+				return true
+			})
+		}
+		pf.WakeIsDirect = found && !table && direct
+	}
 	// --- pkg/data/impl.go
 	if sv := findMethod(c.parse("pkg/data/impl.go"), "FlowDataLocator", "SetVariable"); sv == nil {
 		c.fail("protocol facts: FlowDataLocator.SetVariable not found in pkg/data/impl.go")
@@ -666,8 +712,8 @@ func protocolFacts(c *factsCtx) (pf protoFacts) {
 func init() {
 	factGens = append(factGens, func(c *factsCtx) {
 		pf := protocolFacts(c)
-		fmt.Fprintf(&c.out, "(* protocol facts read off the sources (harness/protocol.go) *)\nDefinition src_active_before_arm : bool := %v.\nDefinition src_termchan_capacity : nat := %d.\nDefinition src_termchan_table_kept : bool := %v.\nDefinition src_determination_is_cas : bool := %v.\nDefinition src_subprocess_registers : bool := %v.\nDefinition src_determination_flag_per_activation : bool := %v.\nDefinition src_join_counter_bits : N := %d%%N.\nDefinition src_join_counter_resets : bool := %v.\nDefinition src_setvariable_replaces : bool := %v.\nDefinition src_token_counter_never_set_back : bool := %v.\nDefinition src_monitor_accumulator_is_local : bool := %v.\nDefinition src_probing_key_is_the_id : bool := %v.\nDefinition src_flows_in_reference_order : bool := %v.\nDefinition src_handler_read_only_on_error : bool := %v.\nDefinition src_unsubscribe_drains : bool := %v.\nDefinition src_answer_slice_is_fresh : bool := %v.\n\n",
-			pf.ActiveBeforeArm, pf.TermChanCapacity, pf.TermChanTableKept, pf.DeterminationIsCAS, pf.SubProcessRegisters, pf.FlagPerActivation, pf.JoinCounterBits, pf.JoinCounterResets, pf.SetVariableReplaces, pf.CounterNeverSetBack, pf.AccumulatorIsLocal, pf.ProbingKeyIsTheId, pf.FlowsInRefOrder, pf.HandlerOnlyOnError, pf.UnsubscribeDrains, pf.AnswerSliceIsFresh)
+		fmt.Fprintf(&c.out, "(* protocol facts read off the sources (harness/protocol.go) *)\nDefinition src_active_before_arm : bool := %v.\nDefinition src_termchan_capacity : nat := %d.\nDefinition src_termchan_table_kept : bool := %v.\nDefinition src_determination_is_cas : bool := %v.\nDefinition src_subprocess_registers : bool := %v.\nDefinition src_determination_flag_per_activation : bool := %v.\nDefinition src_join_counter_bits : N := %d%%N.\nDefinition src_join_counter_resets : bool := %v.\nDefinition src_setvariable_replaces : bool := %v.\nDefinition src_token_counter_never_set_back : bool := %v.\nDefinition src_monitor_accumulator_is_local : bool := %v.\nDefinition src_probing_key_is_the_id : bool := %v.\nDefinition src_flows_in_reference_order : bool := %v.\nDefinition src_handler_read_only_on_error : bool := %v.\nDefinition src_unsubscribe_drains : bool := %v.\nDefinition src_answer_slice_is_fresh : bool := %v.\nDefinition src_wake_is_direct : bool := %v.\n\n",
+			pf.ActiveBeforeArm, pf.TermChanCapacity, pf.TermChanTableKept, pf.DeterminationIsCAS, pf.SubProcessRegisters, pf.FlagPerActivation, pf.JoinCounterBits, pf.JoinCounterResets, pf.SetVariableReplaces, pf.CounterNeverSetBack, pf.AccumulatorIsLocal, pf.ProbingKeyIsTheId, pf.FlowsInRefOrder, pf.HandlerOnlyOnError, pf.UnsubscribeDrains, pf.AnswerSliceIsFresh, pf.WakeIsDirect)
 	})
 	commands["protocol"] = func(env *Env) {
 		c := &factsCtx{repo: env.Repo, fset: token.NewFileSet()}
